@@ -32,6 +32,8 @@ ASSUMPTIONS = [
     'LogNormalKDEFilter docstring names the measurements instead)',
     'measurements and simulated values are positive for log-normal filters; '
     'cell variances are bounded away from zero by the generator',
+    'filters and population models document np.ndarray inputs: input forms are array forms only; integer-valued data with a zero-spread cell is not generated',
+    'log-normal filters with non-positive simulated values: only consistency (padding invariance, S1 parity) is demanded, no particular value',
 ]
 ANCHORS = [
     'chi._population_filters.%s.%s' % (c, m)
